@@ -71,6 +71,55 @@ class Check:
                 if any(rec['aspect'].startswith(a) for a in aspects):
                     self.mismatches.append((rec['aspect'], rec['detail']))
 
+    def record(self, sub, out_name, args=(), seed_offset=0):
+        """Run a harness recorder (impl -> spec direction); returns (trace path, summary)."""
+        path = os.path.join(self.workdir(), out_name)
+        s = vp.jsv([sub, '--out', path] + [str(a) for a in args], seed_offset=seed_offset)
+        return path, s
+
+    def validate(self, label, module, trace, aspect, what, invariants=('Result',), spec='TrSpec', timeout=1800,
+                 heap='8g'):
+        """Validate a recorded trace against a trace specification with TLC.  The trace
+        spec prints one `trace_result` record: events consumed and the indexes (1-based
+        lines) of the events it could not explain."""
+        inst = f'TRI_{label}'
+        mod = f'---- MODULE {inst} ----\nEXTENDS {module}\n====\n'
+        cfg = f'SPECIFICATION {spec}\n' + ''.join(f'INVARIANT {i}\n' for i in invariants) + 'CHECK_DEADLOCK FALSE\n'
+        r = vp.tlc(f'{self.pid}_{label}', mod, cfg, workers=1, cache=False, env={'TRACE': trace}, timeout=timeout,
+                   heap=heap, props=('tlc2.tool.queue.IStateQueue=StateDeque',))
+        if not r['ok']:
+            raise ToolError(f'trace specification {module} failed on {trace}: {r["violation"]}; see {r["out"]}')
+        res = None
+        for line in vp.tlc_lines(r['out'], '"{'):
+            rec = vp.unquote_tlc(line)
+            if rec.get('k') == 'trace_result':
+                res = rec
+        if res is None:
+            raise ToolError(f'trace specification {module} did not reach the end of {trace}; see {r["out"]}')
+        lines = open(trace).read().splitlines()
+        if res['events'] != len(lines):
+            raise ToolError(f'trace length mismatch: TLC read {res["events"]} events, file has {len(lines)}')
+        bad = res.get('bad', [])
+        summ = {'label': label, 'events': res['events'], 'validated': res['events'] - len(bad), 'rejected': len(bad),
+                'wall_s': r['wall_s'], 'mismatch_counts': ({aspect: len(bad)} if bad else {}),
+                'distinct': res.get('distinct', res['events'])}
+        self.traces.append(summ)
+        for l in bad[:50]:
+            # replay = the trace from the last reset up to and including the rejected event
+            start = l - 1
+            while start > 0 and '"reset"' not in lines[start][:40]:
+                start -= 1
+            prefix_path = os.path.join(vp.ROOT, 'replays', f'{self.pid}-{label}-event{l}.trace.ndjson')
+            os.makedirs(os.path.dirname(prefix_path), exist_ok=True)
+            with open(prefix_path, 'w') as f:
+                f.write('\n'.join(lines[start:l]) + '\n')
+            ev = json.loads(lines[l - 1])
+            self.mismatches.append((aspect, {'what': what, 'event_index': l, 'event': ev, 'trace_module': module,
+                                             'trace_prefix': prefix_path}))
+        if not self.samples or len(self.samples) < 6:
+            self.samples.append({'recorded_event': json.loads(lines[min(len(lines) - 1, 1)])})
+        return summ
+
     def counts_for(self, summary, aspects):
         return sum(n for a, n in summary.get('mismatch_counts', {}).items() if any(a.startswith(x) for x in aspects))
 
@@ -120,8 +169,63 @@ def c03(ctx):
     ctx.replay(files, ['C03.'])
 
 
+OBJ_MODELS = {
+    'quick': dict(keys='{<<97>>, <<98>>}', vals='{0, 1}', maxlen=4,
+                  bulk='{<<>>, <<Entry(<<97>>, 1), Entry(<<98>>, 0), Entry(<<97>>, 0)>>, <<Entry(<<98>>, 1), Entry(<<98>>, 1)>>}'),
+    'thorough': dict(keys='{<<97>>, <<98>>, <<99, 100>>}', vals='{0, 1}', maxlen=5,
+                     bulk='{<<>>, <<Entry(<<97>>, 1), Entry(<<98>>, 0), Entry(<<97>>, 0)>>, <<Entry(<<98>>, 1), Entry(<<98>>, 1)>>, '
+                          '<<Entry(<<99, 100>>, 0), Entry(<<97>>, 1), Entry(<<99, 100>>, 0), Entry(<<99, 100>>, 1)>>}'),
+}
+
+
+def object_graph(ctx):
+    m = OBJ_MODELS[ctx.tier]
+    consts = {'Keys': m['keys'], 'Absent': '<<122>>', 'Vals': m['vals'], 'Bulk': m['bulk']}
+    return ctx.mc(f'object_{ctx.tier}', 'MC_Object', consts, {'MaxLen': m['maxlen']},
+                  ['Consistent', 'Scans', 'BucketsSorted'], spec='OSpec', extra=['VIEW View'], workers=8)
+
+
+def c06(ctx):
+    r = object_graph(ctx)
+    ctx.replay([r['out']], ['C06.'])
+    runs = 1 if ctx.quick else 8
+    n = 600 if ctx.quick else 3000
+    for i in range(runs):
+        trace, s = ctx.record('record-obj', f'objtrace{i}.ndjson', ['--n', n, '--keys', 40, '--resets', 3], seed_offset=i * 7919)
+        ctx.validate(f'objtrace{i}', 'TraceObject', trace, 'C06.trace',
+                     'recorded object operation is not explained by the list model / index of JsonObject',
+                     invariants=('Consistent', 'Result'))
+    ctx.extra['rule'] = ('S->I: one case = one (reachable abstract object state, operation) transition of MC_Object replayed from an '
+                         'access history, comparing entries, result, hooked index buckets and every key query; I->S: one case = one '
+                         'operation of a long random history over 40 keys (several rehash cycles) validated by TraceObject')
+
+
+def c14(ctx):
+    r = object_graph(ctx)
+    ctx.replay([r['out']], ['C14.'])
+    domains, size = (3, 36) if ctx.quick else (10, 90)
+    trace, s = ctx.record('record-order', 'order.ndjson', ['--domains', domains, '--size', size])
+    v = ctx.validate('order', 'TraceOrder', trace, 'C14.laws',
+                     'recorded ==/cmp/partial_cmp/hash matrices violate the laws (structural equality, total order consistent with equality, hash respects equality)')
+    v['events'] = s.get('pairs', v['events'])
+    ctx.samples.extend(s.get('samples', [])[:1])
+    ctx.extra['rule'] = ('S->I: every abstract object state of MC_Object reached through >= 2 histories must be ==, Equal and hash-identical '
+                         '(and clones); I->S: all pairs and triples of generated domains (values with near-copies differing in one leaf / key / '
+                         'position / length) checked by TraceOrder against the order laws')
+
+
+def c20(ctx):
+    r = ctx.mc('kindset', 'MC_KindSet', {}, {}, ['DumpIter', 'DumpSet', 'IterSound'], spec='KSpec', workers=4)
+    ctx.replay([r['out']], ['C20.'], extra_args=['--value-kinds', '1'])
+    ctx.exhaustive = True
+    ctx.extra['rule'] = ('the complete finite domain: all 64 sets x 3 construction routes, all 64x64 operand pairs (incl. every '
+                         'set/kind and kind/kind combination), every interleaving of front/back steps incl. one step past exhaustion')
+
+
 CHECKS = {
     'C01': c01, 'C02': c02, 'C03': c03, 'C05': c05, 'C07': c07, 'C12': c12,
+    'C06': c06, 'C14': c14,
+    'C20': c20,
 }
 
 
